@@ -1,6 +1,7 @@
 package main
 
 import (
+	"go/types"
 	"go/token"
 	"regexp"
 	"strings"
@@ -12,8 +13,39 @@ func init() { register("C19", checkC19) }
 
 const kBF = "hs/security/crypto.Bitfield."
 
+// c19Roles finds the bit field's private helpers by what they are (their signatures), so that
+// renaming them changes nothing: the position function ID -> (byte, bit), its inverse
+// (byte, bit) -> ID, and the bit test (Bitfield or *Bitfield).(byte, bit) -> bool.
+func c19Roles(p *Prog) (idx, idf, isSet *ssa.Function) {
+	idT := namedType(p, "", "ID")
+	bfT := namedType(p, "security/crypto", "Bitfield")
+	isInt := func(t types.Type) bool { b, ok := t.Underlying().(*types.Basic); return ok && b.Kind() == types.Int }
+	for _, fn := range p.ModFuncs {
+		if funcPkgPath(fn) != modPath+"/security/crypto" || fn.Parent() != nil || fn.Blocks == nil || fn.Synthetic != "" || strings.HasSuffix(p.FuncPos(fn), "_test.go") {
+			continue
+		}
+		sig := fn.Signature
+		ps, rs := sig.Params(), sig.Results()
+		switch {
+		case sig.Recv() == nil && ps.Len() == 1 && rs.Len() == 2 && idT != nil && types.Identical(ps.At(0).Type(), idT) && isInt(rs.At(0).Type()) && isInt(rs.At(1).Type()):
+			idx = fn
+		case sig.Recv() == nil && ps.Len() == 2 && rs.Len() == 1 && idT != nil && isInt(ps.At(0).Type()) && isInt(ps.At(1).Type()) && types.Identical(rs.At(0).Type(), idT):
+			idf = fn
+		case sig.Recv() != nil && bfT != nil && types.Identical(derefT(sig.Recv().Type()), bfT) && ps.Len() == 2 && rs.Len() == 1 && isInt(ps.At(0).Type()) && isInt(ps.At(1).Type()) && types.Identical(rs.At(0).Type(), types.Typ[types.Bool]):
+			isSet = fn
+		}
+	}
+	return
+}
+
+var kIsSetCall, kIndexCall = "(hs/security/crypto.Bitfield).isSet(", "crypto.index("
+
 func checkC19(c *Ctx) {
 	p := c.P
+	if idx, _, isSet := c19Roles(p); idx != nil && isSet != nil {
+		kIsSetCall = shortName(isSet) + "("
+		kIndexCall = strings.TrimPrefix(shortName(idx), "hs/security/") + "("
+	}
 	c.Decided = "multi-signature signer lists: every production construction of a Multi with more than one element is the Contains-gated append in Combine, or is checked for distinct signers by the verifiers before its size is trusted (C02.4), so size = number of distinct signers wherever a quorum check relies on it; " +
 		"bit field: the element counter is written only by the guarded increment in set (under !isSet) and by the recount in BitfieldFromBytes; the id<->(byte,bit) mapping is a bijection (index and id are mutually inverse, by the Euclidean identity on the extracted expressions); " +
 		"Contains tests the bounds before indexing, Add extends before setting, iteration visits bytes then bits in ascending order."
@@ -42,7 +74,7 @@ func checkC19(c *Ctx) {
 		}
 		nInc++
 		facts := fl.At(st)
-		okInc := fl.K.Key(st.Val) == "(p0->"+kBF+"len + c:1)" && falseOf(facts, func(k string) bool { return strings.HasPrefix(k, "(hs/security/crypto.Bitfield).isSet(*p0, ") })
+		okInc := fl.K.Key(st.Val) == "(p0->"+kBF+"len + c:1)" && falseOf(facts, func(k string) bool { return strings.HasPrefix(k, kIsSetCall+"*p0, ") || strings.HasPrefix(k, kIsSetCall+"p0, ") })
 		c.Check(okInc, "C19.2", "set: len++ only for a bit that was clear", p.InstrPos(st), "len := len+1 only under !isSet(byteIdx, bitIdx)", "increment not gated by !isSet; facts: "+join(facts.Sorted()))
 	}
 	if nInc == 0 {
@@ -166,8 +198,7 @@ func checkC19(c *Ctx) {
 	}
 
 	// C19.3 index/id bijection
-	idx := p.Func("security/crypto", "index")
-	idf := p.Func("security/crypto", "id")
+	idx, idf, _ := c19Roles(p)
 	if idx == nil || idf == nil {
 		c.Unresolved("C19.3", "index/id", "anchor missing")
 	} else {
@@ -241,7 +272,7 @@ func checkC19(c *Ctx) {
 				return
 			}
 			n++
-			okGate = trueOf(fl.At(in), func(k string) bool { return strings.HasPrefix(k, "(hs/security/crypto.Bitfield).isSet(") })
+			okGate = trueOf(fl.At(in), func(k string) bool { return strings.HasPrefix(k, kIsSetCall) })
 		})
 		c.Check(n == 1 && okGate, "C19.4", "RangeWhile: callback once per set bit", p.FuncPos(rw), "the callback is invoked at one site, only under isSet(byteIdx, bitIdx)", "callback sites: "+itoa(n)+", gated: "+boolStr(okGate))
 	}
@@ -252,12 +283,12 @@ func checkC19(c *Ctx) {
 		n := 0
 		eachInstr(ct, func(in ssa.Instruction) {
 			call, isCall := in.(*ssa.Call)
-			if !isCall || call.Call.StaticCallee() == nil || call.Call.StaticCallee().Name() != "isSet" {
+			if !isCall || call.Call.StaticCallee() == nil || !strings.HasPrefix(shortName(call.Call.StaticCallee())+"(", kIsSetCall) {
 				return
 			}
 			n++
 			// len(data) > byteIdx
-			if !hasCmp(fl.At(in), "<", func(k string) bool { return strings.HasSuffix(k, "#0") && strings.Contains(k, "crypto.index(") },
+			if !hasCmp(fl.At(in), "<", func(k string) bool { return strings.HasSuffix(k, "#0") && strings.Contains(k, kIndexCall) },
 				func(k string) bool { return strings.HasPrefix(k, "builtin len(") && strings.Contains(k, kBF+"data") }) {
 				ok = false
 			}
@@ -267,7 +298,7 @@ func checkC19(c *Ctx) {
 		okZero := true
 		eachInstr(ct, func(in ssa.Instruction) {
 			call, isCall := in.(*ssa.Call)
-			if !isCall || call.Call.StaticCallee() == nil || call.Call.StaticCallee().Name() != "isSet" {
+			if !isCall || call.Call.StaticCallee() == nil || !strings.HasPrefix(shortName(call.Call.StaticCallee())+"(", kIsSetCall) {
 				return
 			}
 			if !hasCmp(fl.At(in), "!=", is("p1"), is("c:0")) {
@@ -316,7 +347,7 @@ func checkC19(c *Ctx) {
 			return ""
 		}
 		enough := func(k string) bool {
-			return strings.Contains(k, "crypto.index(") && strings.Contains(k, "+ c:1)") && strings.Contains(k, "- builtin len(")
+			return strings.Contains(k, kIndexCall) && strings.Contains(k, "+ c:1)") && strings.Contains(k, "- builtin len(")
 		}
 		// the set operation in Add: a direct element store, or a call of a helper of the package that performs it
 		isSetOp := func(in ssa.Instruction) bool {
@@ -359,7 +390,7 @@ func checkC19(c *Ctx) {
 		}
 		inBounds := func(fs []Fact) bool {
 			for _, f := range fs {
-				if f.Op == "<" && strings.Contains(f.L, "crypto.index(") && strings.HasPrefix(f.R, "builtin len(") {
+				if f.Op == "<" && strings.Contains(f.L, kIndexCall) && strings.HasPrefix(f.R, "builtin len(") {
 					return true
 				}
 			}
@@ -590,6 +621,17 @@ func c19Fresh(c *Ctx) {
 					}
 				}
 			}
+			// a field of the receiver of a private method (a small accumulator type): every receiver the method is used
+			// with must be a local whose bit-field field starts empty and is never assigned
+			if fa, isFA := recv.(*ssa.FieldAddr); isFA {
+				if prm, isPrm := fa.X.(*ssa.Parameter); isPrm && len(owner.Params) > 0 && prm == owner.Params[0] && owner.Signature.Recv() != nil && owner.Object() != nil && !owner.Object().Exported() {
+					if why := c19AccumulatorFresh(p, owner, fa.Field); why == "" {
+						c.Held("C19.6", shortName(fn)+": Add mutates a bit field that owns its bytes", p.Pos(s.Pos()),
+							"the receiver is a field of a private accumulator; every accumulator is a local whose bit field starts empty and is never assigned another bit field")
+						continue
+					}
+				}
+			}
 			al, ok := recv.(*ssa.Alloc)
 			reason := ""
 			if !ok {
@@ -641,6 +683,88 @@ func c19AllocAssigned(p *Prog, fn *ssa.Function, al *ssa.Alloc) string {
 				continue
 			}
 			return "the accumulator is assigned " + k.Key(st.Val) + " at " + p.InstrPos(st) + ": it shares that bit field's bytes, and Add then changes the other signature's membership while its count stays stale"
+		}
+	}
+	return ""
+}
+
+// c19AccumulatorFresh: every receiver that the private method m is used with (called directly or
+// bound as a method value) is the address of a local struct whose field #field is never stored to
+// (it keeps its zero value until m mutates it). Returns "" or the reason.
+func c19AccumulatorFresh(p *Prog, m *ssa.Function, field int) string {
+	ci := callIndexOf(p)
+	var recvs []ssa.Value
+	for _, r := range ci.callers[m] {
+		if strings.Contains(r.In.Synthetic, "bound method wrapper") {
+			// where is the wrapper bound?
+			found := false
+			for _, fn := range p.ModFuncs {
+				eachInstr(fn, func(in ssa.Instruction) {
+					if mc, ok := in.(*ssa.MakeClosure); ok && mc.Fn == ssa.Value(r.In) && len(mc.Bindings) == 1 {
+						recvs = append(recvs, mc.Bindings[0])
+						found = true
+					}
+				})
+			}
+			if !found {
+				return "bound method value with unknown receiver"
+			}
+			continue
+		}
+		if r.Kind != "call" {
+			return "used other than by a synchronous call"
+		}
+		recvs = append(recvs, r.Instr.(ssa.CallInstruction).Common().Args[0])
+	}
+	if len(recvs) == 0 || ci.asValue[m] {
+		return "no known use"
+	}
+	for _, rv := range recvs {
+		al, ok := rv.(*ssa.Alloc)
+		if !ok {
+			return "a receiver is not a local"
+		}
+		if al.Referrers() == nil {
+			continue
+		}
+		for _, ref := range *al.Referrers() {
+			switch x := ref.(type) {
+			case *ssa.FieldAddr:
+				if x.Field != field || x.Referrers() == nil {
+					continue
+				}
+				for _, u := range *x.Referrers() {
+					if st, isSt := u.(*ssa.Store); isSt && st.Addr == ssa.Value(x) {
+						return "the accumulator's bit field is assigned at " + p.InstrPos(st)
+					}
+				}
+			case *ssa.Store:
+				if x.Addr == ssa.Value(al) {
+					// whole-struct assignment: only a literal that leaves the field at its zero value
+					u, isLoad := x.Val.(*ssa.UnOp)
+					lit, _ := func() (*ssa.Alloc, bool) {
+						if !isLoad {
+							return nil, false
+						}
+						a, ok := u.X.(*ssa.Alloc)
+						return a, ok
+					}()
+					if lit == nil || lit.Comment != "complit" {
+						return "the accumulator is assigned as a whole at " + p.InstrPos(x)
+					}
+					if lit.Referrers() != nil {
+						for _, lr := range *lit.Referrers() {
+							if lfa, isFA := lr.(*ssa.FieldAddr); isFA && lfa.Field == field && lfa.Referrers() != nil {
+								for _, u2 := range *lfa.Referrers() {
+									if st2, isSt := u2.(*ssa.Store); isSt && st2.Addr == ssa.Value(lfa) {
+										return "the accumulator literal sets its bit field at " + p.InstrPos(st2)
+									}
+								}
+							}
+						}
+					}
+				}
+			}
 		}
 	}
 	return ""
